@@ -13,7 +13,11 @@
 EXTENDS Integers, Sequences, FiniteSets, TLC, Json
 
 CONSTANTS Names, Temps, MaxDefs, Emit, Hist, WalkLen,
-          ProbeKinds   \* kinds whose names are looked up (used) by Probe steps
+          ProbeKinds,  \* kinds whose names are looked up (used) by Probe steps
+          Vias,        \* how a definition reaches the VM: "inline" (in the request's own source), "include" (a file
+                       \* loaded with include), "eval" (a string given to eval())
+          EvalOnTemp   \* "refused" | "supported": whether eval() runs at all on a temporary VM (either is fine for
+                       \* isolation; the harness probes the code once and tells the model)
 
 Kinds == {"class", "iface", "func"}
 Empty == [k \in Kinds |-> {}]
@@ -34,7 +38,7 @@ Resolve(b, tm, al, v, k) == IF v = "base" THEN b[k]
 Table(b, tm, al) == [v \in VMs |-> [k \in Kinds |-> Resolve(b, tm, al, v, k)]]
 
 Init == /\ base = Empty /\ temp = [t \in Temps |-> Empty] /\ alive = [t \in Temps |-> FALSE]
-        /\ act = [op |-> "init", vm |-> "", kind |-> "", name |-> "", ok |-> TRUE]
+        /\ act = [op |-> "init", vm |-> "", kind |-> "", name |-> "", via |-> "", ok |-> TRUE]
         /\ hist = <<>>
         /\ (Emit => PrintT(<<"INIT", ToJson(St)>>))
 
@@ -43,31 +47,35 @@ Record == hist' = IF Hist THEN Append(hist, [act |-> act', table |-> Table(base'
 \* a base VM has one name space for classes and interfaces; duplicates are rejected (state unchanged)
 BaseTaken(k, n) == IF k = "func" THEN n \in base["func"] ELSE n \in base["class"] \cup base["iface"]
 
-DefineBase(k, n) ==
+DefineBase(k, n, via) ==
   /\ NDefs < MaxDefs
   /\ IF BaseTaken(k, n)
        THEN /\ UNCHANGED <<base>>
-            /\ act' = [op |-> "define", vm |-> "base", kind |-> k, name |-> n, ok |-> FALSE]
+            /\ act' = [op |-> "define", vm |-> "base", kind |-> k, name |-> n, via |-> via, ok |-> FALSE]
        ELSE /\ base' = [base EXCEPT ![k] = @ \cup {n}]
-            /\ act' = [op |-> "define", vm |-> "base", kind |-> k, name |-> n, ok |-> TRUE]
+            /\ act' = [op |-> "define", vm |-> "base", kind |-> k, name |-> n, via |-> via, ok |-> TRUE]
   /\ UNCHANGED <<temp, alive>> /\ Record
 
-DefineTemp(t, k, n) ==
+\* whichever way the definition arrives, it lands in the temporary VM only
+DefineTemp(t, k, n, via) ==
   /\ alive[t] /\ NDefs < MaxDefs
-  /\ temp' = [temp EXCEPT ![t][k] = @ \cup {n}]
-  /\ act' = [op |-> "define", vm |-> t, kind |-> k, name |-> n, ok |-> TRUE]
+  /\ IF via = "eval" /\ EvalOnTemp = "refused"
+       THEN /\ UNCHANGED temp
+            /\ act' = [op |-> "define", vm |-> t, kind |-> k, name |-> n, via |-> via, ok |-> FALSE]
+       ELSE /\ temp' = [temp EXCEPT ![t][k] = @ \cup {n}]
+            /\ act' = [op |-> "define", vm |-> t, kind |-> k, name |-> n, via |-> via, ok |-> TRUE]
   /\ UNCHANGED <<base, alive>> /\ Record
 
 NewTemp(t) ==
   /\ ~alive[t]
   /\ alive' = [alive EXCEPT ![t] = TRUE] /\ temp' = [temp EXCEPT ![t] = Empty]
-  /\ act' = [op |-> "new", vm |-> t, kind |-> "", name |-> "", ok |-> TRUE]
+  /\ act' = [op |-> "new", vm |-> t, kind |-> "", name |-> "", via |-> "", ok |-> TRUE]
   /\ UNCHANGED base /\ Record
 
 Discard(t) ==
   /\ alive[t]
   /\ alive' = [alive EXCEPT ![t] = FALSE] /\ temp' = [temp EXCEPT ![t] = Empty]
-  /\ act' = [op |-> "discard", vm |-> t, kind |-> "", name |-> "", ok |-> TRUE]
+  /\ act' = [op |-> "discard", vm |-> t, kind |-> "", name |-> "", via |-> "", ok |-> TRUE]
   /\ UNCHANGED base /\ Record
 
 \* code running on VM v uses name n (new n() / n() / interface lookup with autoload): it succeeds exactly
@@ -75,12 +83,12 @@ Discard(t) ==
 \* through the autoload probe (runtime GetOrLoadClass), which is where a VM could be re-bound.
 Probe(v, k, n) ==
   /\ (IF v = "base" THEN TRUE ELSE alive[v])
-  /\ act' = [op |-> "probe", vm |-> v, kind |-> k, name |-> n, ok |-> (n \in Resolve(base, temp, alive, v, k))]
+  /\ act' = [op |-> "probe", vm |-> v, kind |-> k, name |-> n, via |-> "", ok |-> (n \in Resolve(base, temp, alive, v, k))]
   /\ UNCHANGED <<base, temp, alive>> /\ Record
 
-Step == \/ \E k \in Kinds, n \in Names : DefineBase(k, n)
+Step == \/ \E k \in Kinds, n \in Names, via \in Vias : DefineBase(k, n, via)
         \/ \E v \in VMs, k \in ProbeKinds, n \in Names : Probe(v, k, n)
-        \/ \E t \in Temps, k \in Kinds, n \in Names : DefineTemp(t, k, n)
+        \/ \E t \in Temps, k \in Kinds, n \in Names, via \in Vias : DefineTemp(t, k, n, via)
         \/ \E t \in Temps : NewTemp(t) \/ Discard(t)
 
 Finish == /\ Hist /\ Len(hist) = WalkLen /\ act.op # "finish"
